@@ -376,8 +376,20 @@ class ModelPrecip(object):
         self.species = [self.cat, self.an, self.solid]
         self.Ksp = 10.0 ** (case["lksp"] / 1000.0)
         self.c0 = {}
-        for s, code in zip(self.species, case["amounts"]):
-            self.c0[s] = 0.0 if code is None else 10.0 ** (code / 1000.0)
+        self.near = case.get("near")
+        if self.near is not None:
+            # near-saturation state, built so that the ion product of the *all-dissolved* state is Ksp * (1 + delta):
+            # total cation C (all solid dissolved) is drawn, total anion A = (Ksp (1 + delta) / C)^(1/n), and a fraction
+            # solid_pm/1000 of the largest amount of solid those totals allow (min(C, A/n)) starts as solid.
+            nr = self.near
+            self.delta = nr["sign"] * 10.0 ** (nr["ld"] / 1000.0)
+            ctot = 10.0 ** (nr["lcat"] / 1000.0)
+            atot = (self.Ksp * (1.0 + self.delta) / ctot) ** (1.0 / self.n_an)
+            s0 = nr["solid_pm"] / 1000.0 * min(ctot, atot / self.n_an)
+            self.c0 = {self.cat: ctot - s0, self.an: atot - self.n_an * s0, self.solid: s0}
+        else:
+            for s, code in zip(self.species, case["amounts"]):
+                self.c0[s] = 0.0 if code is None else 10.0 ** (code / 1000.0)
         self.net = {self.solid: -1, self.cat: 1, self.an: self.n_an}
         # orientation handed to chempy: dissolution  MX(s) = M + nX  (K = Ksp)  or precipitation  M + nX = MX(s)  (1/Ksp)
         self.reverse = bool(case.get("reverse", False))
@@ -404,3 +416,92 @@ def precip_cases(draw, salts=(0, 1, 2, 3)):
     sol = amount() if shape != "ions" else None
     return {"salt": salt, "lksp": lksp, "amounts": [cat, an, sol], "shape": shape,
             "chain": chain, "reverse": reverse}
+
+
+NEAR_DECADES = list(range(2, 9))       # |delta| = 10^-(d + f/1000), d in 2..8, f in 0..1000: log-uniform over [1e-9, 1e-2]
+
+
+def _decade_code(draw, decades):
+    """-(1000 d + f): the decade comes from sampled_from (Hypothesis' bounded integers are strongly biased towards
+    their shrink target, which would put most cases into the first decade), the position inside it from integers."""
+    return -(1000 * draw(st.sampled_from(decades)) + draw(st.integers(0, 1000)))
+
+
+@st.composite
+def precip_near_cases(draw, salts=(0, 1, 2, 3)):
+    """Initial states *near saturation*: the ion product of the all-dissolved state is Ksp * (1 + delta), delta of
+    either sign with |delta| log-uniform in [1e-9, 1e-2]; with and without solid initially present.  Both total ion
+    amounts stay inside [1e-3, 10] (the domain of `precip_cases`)."""
+    chain = draw(st.sampled_from(PRECIP_CHAINS))
+    reverse = draw(st.booleans())
+    salt = draw(st.sampled_from(list(salts)))
+    n_an = SALTS[salt][3]
+    lksp = _decade_code(draw, [0, 1, 2, 3])
+    sign = draw(st.sampled_from([1, -1]))
+    ld = _decade_code(draw, NEAR_DECADES)
+    # log10 C in [-3, 1] such that log10 A = (lksp - log10 C) / n is in [-3, 1] as well
+    lo, hi = max(-3000, lksp - 1000 * n_an), min(1000, lksp + 3000 * n_an)
+    lcat = max(lo, hi - ((hi - lo) * draw(st.sampled_from(range(8)))) // 8 - draw(st.integers(0, (hi - lo) // 8)))
+    with_solid = draw(st.booleans())
+    solid_pm = draw(st.sampled_from([500, 1, 10, 100, 250, 750, 900, 990, 999])) if with_solid else 0
+    return {"salt": salt, "lksp": lksp, "near": {"sign": sign, "ld": ld, "lcat": lcat, "solid_pm": solid_pm},
+            "shape": "near+solid" if with_solid else "near", "chain": chain, "reverse": reverse}
+
+
+# ---------------------------------------------------------------------------------------------------------------
+# C08: series / grid solves (EqSystem.roots, EqSystem.solve(init_concs, varied))
+# ---------------------------------------------------------------------------------------------------------------
+SERIES_ROOTS_CHAINS = ["default", "loglin", "lin"]
+
+
+class ModelSeries(Model08):
+    """Model08 plus the varied substances: `varied` = [[name, [log10 value in 1/1000 decade, ...]], ...] in the order in
+    which the keys are handed to chempy."""
+
+    def __init__(self, case):
+        Model08.__init__(self, case)
+        self.api = case["api"]
+        self.varied = [(k, [10.0 ** (c / 1000.0) for c in codes]) for k, codes in case["varied"]]
+        self.keys = [k for k, _ in self.varied]
+        assert len(set(self.keys)) == len(self.keys) and all(k in self.species and k != "H2O" for k in self.keys)
+        assert (self.api == "roots" and len(self.keys) == 1) or (self.api == "solve" and 1 <= len(self.keys) <= 2)
+        self.values = dict(self.varied)
+
+    def in_substance_order(self):
+        pos = [self.species.index(k) for k in self.keys]
+        return pos == sorted(pos)
+
+    def point(self, assignment):
+        """The initial state of one grid point: base c0 with the varied entries replaced ({name: value})."""
+        import copy
+        m = copy.copy(self)
+        m.c0 = dict(self.c0)
+        m.c0.update(assignment)
+        return m
+
+
+SERIES_LAYOUTS = ["solve:1", "solve:2:in_order", "solve:2:out_of_order", "roots"]
+
+
+@st.composite
+def c08_series_cases(draw):
+    """Series / grid solves over the homogeneous domain: EqSystem.roots (one varied substance) and
+    EqSystem.solve(init_concs, varied) with one or two varied substances, 2-4 values each (10^U(-6, 0)), the two keys
+    handed over in substance order or reversed."""
+    layout = draw(st.sampled_from(SERIES_LAYOUTS))
+    api = layout.split(":")[0]
+    chain = "solve" if api == "solve" else draw(st.sampled_from(SERIES_ROOTS_CHAINS))
+    body = _c08_body(draw, max_eq=3)
+    names = [s for s in ORDER if s in body["lc0"]]          # substance order, water excluded (it stays at 55.5)
+    a = draw(st.integers(0, len(names) - 2))                 # every pool reaction has >= 2 species besides water
+    if ":2:" in layout:
+        b = draw(st.integers(a + 1, len(names) - 1))
+        picks = [a, b] if layout.endswith("in_order") else [b, a]
+    else:
+        picks = [a]
+    varied = []
+    for i in picks:
+        nv = draw(st.sampled_from([2, 3, 4]))
+        varied.append([names[i], [_decade_code(draw, [0, 1, 2, 3, 4, 5]) for _ in range(nv)]])
+    body.update({"api": api, "chain": chain, "varied": varied})
+    return body
